@@ -57,6 +57,8 @@ type Report struct {
 	TimeNowSites        []string `json:"time_now_sites"`
 	RandSites           []string `json:"rand_sites"`
 	RandRewritten       int      `json:"rand_calls_rewritten"`
+	CleanupRewritten    int      `json:"runtime_addcleanup_rewritten"`
+	FinalizerSites      []string `json:"runtime_setfinalizer_uncontrolled"`
 	PoolRewritten       int      `json:"syncpool_calls_rewritten"`
 	PoolUncontrolled    []string `json:"syncpool_uncontrolled"`
 	AfterFuncSites      []string `json:"afterfunc_sites"`
@@ -517,6 +519,19 @@ func instrumentFile(p *packages.Package, f *ast.File, path string) *fileEdits {
 							}
 						case "crypto/rand":
 							rep.RandSites = append(rep.RandSites, where(x.Pos()))
+						case "runtime":
+							// the collector decides when a cleanup runs: under simulation the simulator does (verifsim/gcseam.go)
+							if sel.Sel.Name == "AddCleanup" {
+								fe.add(off(x.Fun.Pos()), off(x.Fun.End()), "verifsim.AddCleanup")
+								rep.CleanupRewritten++
+								if !randKeep["runtime:"+id.Name] {
+									randKeep["runtime:"+id.Name] = true
+									fe.add(len(src), len(src), "\nvar _ = "+id.Name+".GC\n")
+								}
+							}
+							if sel.Sel.Name == "SetFinalizer" {
+								rep.FinalizerSites = append(rep.FinalizerSites, where(x.Pos()))
+							}
 						}
 					}
 				}
